@@ -80,7 +80,6 @@ NA = {
  'C02': "equality of two implementations' answers over all inputs is a relation between runtime values; the only shape-level sibling check found flags by-design stubs",
  'C22': "soundness of a rewrite over all programs is not a shape property; a guard-presence check would be a frozen fragment",
  'C24': "functional semantics of each collection function over all inputs; not a shape property",
- 'C34': "equivalence of two algorithms over all lines and tolerances needs execution or a solver, which is a different family",
 }
 
 # Keep the claim texts in step with DESIGN.md section 5: "*Decides*: ..." and "*Not decided*: ..."
